@@ -18,8 +18,37 @@ Definition live1 (en : lentry) : list xev :=
   match en with LExec k v false => [(k, v)] | _ => [] end.
 Definition live (l : list lentry) : list xev := flat_map live1 l.
 Definition trE (e : env) : list xev := live (e_log e).
-(* the environments of calls that carry no state modifier *)
-Definition EOKe (e : env) : Prop := e_mod e = false.
+(* every environment (calls with and without state modifier) *)
+Definition EOKe (e : env) : Prop := True.
+
+(* what a state modifier of the harness may change: the counter the handlers never read *)
+Definition geqN (a b : gst) : Prop :=
+  match a, b with
+  | Some x, Some y => st_seen x = st_seen y /\ st_saved x = st_saved y
+  | None, None => True
+  | _, _ => False
+  end.
+
+Lemma geqN_refl : forall g, geqN g g.
+Proof. intros [x|]; simpl; auto. Qed.
+
+Lemma geqN_trans : forall a b c, geqN a b -> geqN b c -> geqN a c.
+Proof. intros [x|] [y|] [z|]; simpl; try tauto. intros [? ?] [? ?]. split; congruence. Qed.
+
+Lemma geqN_bump : forall g, geqN (bump g) g.
+Proof. intros [x|]; simpl; auto. Qed.
+
+Lemma pre_fn_geq : forall g k v a b, geqN a b ->
+  fst (pre_fn g k v a) = fst (pre_fn g k v b) /\ geqN (snd (pre_fn g k v a)) (snd (pre_fn g k v b)).
+Proof.
+  intros g k v [x|] [y|] H; simpl in H; try (exfalso; exact H).
+  - destruct H as [H1 H2]. unfold pre_fn.
+    destruct (gs_state g && memN k (gs_st g))%bool; [|simpl; auto].
+    destruct (is_empty v); simpl.
+    + rewrite H2. auto.
+    + rewrite H1, H2. auto.
+  - simpl. auto.
+Qed.
 
 Lemma live_app : forall a b, live (a ++ b) = live a ++ live b.
 Proof. intros; unfold live; apply flat_map_app. Qed.
@@ -34,9 +63,12 @@ Definition GOKN (g : gspec) (s : gst) : Prop := gs_state g = true -> has_state s
 Definition rerun_ok' (g : gspec) : Prop :=
   forall k l, nlist_get k (gs_rerun g) = Some l -> gs_state g = true /\ memN k (gs_st g) = true.
 
-Lemma state_layer_model : forall g, rerun_ok' g -> state_layer (SCP := ncp) VNil (pre_fn g) (rerunN g) (GOKN g).
+Lemma state_layer_model : forall g, rerun_ok' g -> state_layer (SCP := ncp) VNil (pre_fn g) (rerunN g) (GOKN g) geqN.
 Proof.
   intros g Hok. constructor.
+  - exact geqN_refl.
+  - exact geqN_trans.
+  - apply pre_fn_geq.
   - intros k v gs Hg Hst. apply pre_fn_has_state. auto.
   - intros ts gs Hg Hn Hf t' Hin [Hst Hm].
     assert (Hrok : rerun_ok g) by (split; [exact Hst|]; intros k l Hl; destruct (Hok k l Hl); auto).
@@ -124,7 +156,7 @@ Section Nested.
               (execU (SCP := ncp) (SINFO := ninfo) (bodyOf (ubody d' F sub))) [] [] (seg_fuel (gs_graph sub))
               cs0 (gs0 sub) v' tt = (ODone vU, lU, tt) /\
         GSusp (SINFO := ninfo) VNil (ifold (gs_graph sub)) (igetr (gs_graph sub)) (pre_fn sub)
-              (bodyOf (ubody d' F sub)) (rerunN sub) (traceOf (ubody d' F sub)) (SuspN d' sub) (chanJ sub) (GOKN sub)
+              (bodyOf (ubody d' F sub)) (rerunN sub) (traceOf (ubody d' F sub)) (SuspN d' sub) (chanJ sub) (GOKN sub) geqN
               (seg_fuel (gs_graph sub)) vU lU c0 L E
     end.
 
@@ -196,7 +228,7 @@ Section Nested.
           pose proof (seg_fresh_ok VNil (ifold (gs_graph sub)) (igetr (gs_graph sub)) (pre_fn sub)
                         (bodyOf (ubody d' F sub)) (rerunN sub) (node_exec d' F sub) (gs_before sub) (gs_after sub)
                         trE (traceOf (ubody d' F sub)) EOKe (SuspN d' sub) (IH sub Hsub) (chanJ sub) Hcl
-                        (GOKN sub) (state_layer_model sub Hrok_s) (seg_fuel (gs_graph sub)) vU lU cs0 (gs0 sub) v'
+                        (GOKN sub) geqN (state_layer_model sub Hrok_s) (seg_fuel (gs_graph sub)) vU lU cs0 (gs0 sub) v'
                         (Hj0 cs0 eq_refl) (GOKN_gs0 sub) (seg_fuel (gs_graph sub)) HU (le_n _) e He) as Hseg.
           destruct (start VNil (ifold (gs_graph sub)) (igetr (gs_graph sub)) (pre_fn sub) (node_exec d' F sub)
                       (gs_before sub) (gs_after sub) (seg_fuel (gs_graph sub)) cs0 (gs0 sub) v' e) as [[o1 l1] e1].
@@ -221,15 +253,15 @@ Section Nested.
         { unfold key_input. destruct (nlist_get k (gs_inkey g)); [|eauto].
           destruct (match z with VMap kvs => nlist_get n0 kvs | _ => None end); eauto. }
         destruct Hkz as (z' & Hkz). rewrite Hkz, Hk, Hnth in Hx.
-        assert (Hsm : sm_of e = (fun s : gst => s)) by (unfold sm_of; rewrite He; reflexivity).
-        rewrite Hsm in Hx.
-        rewrite (seg_resumed_batch (node_exec d' F sub) (N.of_nat j) sub (fun s => s) c0 e Heag) in Hx.
+        assert (Hsm : forall s0, geqN (sm_of e s0) s0).
+        { intros s0. unfold sm_of. destruct (e_mod e); [apply geqN_bump|apply geqN_refl]. }
+        rewrite (seg_resumed_batch (node_exec d' F sub) (N.of_nat j) sub (sm_of e) c0 e Heag) in Hx.
         pose proof (seg_resumed_ok VNil (ifold (gs_graph sub)) (igetr (gs_graph sub)) (pre_fn sub)
                       (bodyOf (ubody d' F sub)) (rerunN sub) (node_exec d' F sub) (gs_before sub) (gs_after sub)
                       trE (traceOf (ubody d' F sub)) EOKe (SuspN d' sub) (IH sub Hsub) (chanJ sub) Hcl
-                      (GOKN sub) (state_layer_model sub Hrok_s) (seg_fuel (gs_graph sub)) vU lU c0 L0 E e Hgs He) as Hseg.
+                      (GOKN sub) geqN (state_layer_model sub Hrok_s) (seg_fuel (gs_graph sub)) vU lU (sm_of e) c0 L0 E e Hsm Hgs He) as Hseg.
         destruct (resume VNil (ifold (gs_graph sub)) (igetr (gs_graph sub)) (pre_fn sub) (node_exec d' F sub)
-                    (gs_before sub) (gs_after sub) (seg_fuel (gs_graph sub)) (fun s => s) c0 e) as [[o1 l1] e1].
+                    (gs_before sub) (gs_after sub) (seg_fuel (gs_graph sub)) (sm_of e) c0 e) as [[o1 l1] e1].
         unfold seg_res in Hseg. destruct Hseg as (He1 & Lnew & Htr & Hcase).
         destruct (log_pres_tr sub l1 e1) as [Htr' He''].
         inversion Hx; subst r e'. clear Hx.
@@ -295,29 +327,32 @@ Section Nested.
         destruct (log_pres_tr (strip sub) lP eP) as [_ H2]. simpl. split; eauto.
   Qed.
 
-  Lemma tick_ok : forall k e, EOKe e -> EOKe (tick_of [] k e) /\ trE (tick_of [] k e) = trE e.
+  Lemma tick_ok : forall mods k e, EOKe e -> EOKe (tick_of mods k e) /\ trE (tick_of mods k e) = trE e.
   Proof.
-    intros k e He. unfold tick_of, EOKe, trE. cbn [e_mod e_log]. split; [reflexivity|].
+    intros mods k e He. unfold tick_of, EOKe, trE. cbn [e_mod e_log]. split; [exact I|].
     rewrite live_app. simpl. apply app_nil_r.
   Qed.
+
+  Lemma mods_ok : forall mods k g, geqN (mods_of mods k g) g.
+  Proof. intros mods k g. unfold mods_of. destruct (mod_at mods k); [apply geqN_bump|apply geqN_refl]. Qed.
 
   (* ---------- the theorem ---------- *)
   Notation callobsM := (@call_obs value (chans value) gst ncp ninfo).
 
   Lemma nested_equiv_l : forall g0 rest, F = g0 :: rest ->
-    forall x eU0 coU eU' vU n e cos e' cos' co,
-      EOKe eU0 -> EOKe e ->
+    forall mods x eU0 coU eU' vU n e cos e' cos' co,
       run_drive (map strip F) false [] x eU0 = ([coU], eU') -> co_out coU = ODone vU ->
       drive (fun c : cpt => c) (fun c => Some c)
             (seg_fresh (node_exec (List.length F) F g0) 0 g0 x) (seg_resumed (node_exec (List.length F) F g0) 0 g0)
-            (tick_of []) true n O (mods_of []) None e = (cos, e') ->
+            (tick_of mods) true n O (mods_of mods) None e = (cos, e') ->
       cos = cos' ++ [co] ->
       is_interrupt (co_out co) \/
       (co_out co = ODone vU /\
        Permutation (good (all_logs cos)) (co_log coU) /\
        exists LU LI, trE eU' = trE eU0 ++ LU /\ trE e' = trE e ++ LI /\ Permutation LI LU).
   Proof.
-    intros g0 rest HF x eU0 coU eU' vU n e cos e' cos' co HeU He Href HvU Hd Hcos.
+    intros g0 rest HF mods x eU0 coU eU' vU n e cos e' cos' co Href HvU Hd Hcos.
+    assert (HeU : EOKe eU0) by exact I. assert (He : EOKe e) by exact I.
     assert (Hg0 : In g0 F) by (rewrite HF; left; reflexivity).
     pose proof H_F as HFa. rewrite Forall_forall in HFa. destruct (HFa g0 Hg0) as (Heag & Hrok & Hcl & Hj0).
     (* the reference run is one fresh segment of the stripped forest *)
@@ -325,7 +360,7 @@ Section Nested.
     change (strip g0 :: map strip rest) with (map strip (g0 :: rest)) in Href. rewrite <- HF in Href.
     rewrite map_length in Href.
     cbn [drive max_resumes] in Href. unfold call in Href.
-    destruct (tick_ok 0%nat eU0 HeU) as [HeT HtT].
+    destruct (tick_ok [] 0%nat eU0 HeU) as [HeT HtT].
     destruct (seg_fresh (node_exec (List.length F) (map strip F) (strip g0)) 0 (strip g0) x (tick_of [] 0%nat eU0))
       as [[oR lR] eR] eqn:HsegR.
     assert (HcoU : oR = ODone vU /\ co_log coU = lR /\ eU' = eR).
@@ -365,9 +400,9 @@ Section Nested.
     pose proof (susp_equiv_l VNil (ifold (gs_graph g0)) (igetr (gs_graph g0)) (pre_fn g0)
                   (bodyOf (ubody (List.length F) F g0)) (rerunN g0) (node_exec (List.length F) F g0)
                   (gs_before g0) (gs_after g0) trE (traceOf (ubody (List.length F) F g0)) EOKe (SuspN (List.length F) g0)
-                  (node_protocol (List.length F) g0 Hg0) (chanJ g0) Hcl (GOKN g0) (state_layer_model g0 Hrok)
+                  (node_protocol (List.length F) g0 Hg0) (chanJ g0) Hcl (GOKN g0) geqN (state_layer_model g0 Hrok)
                   (seg_fuel (gs_graph g0)) vU lU cs0 (gs0 g0) x (Hj0 cs0 eq_refl) (GOKN_gs0 g0) (seg_fuel (gs_graph g0)) HU (le_n _)
-                  (fun c : cpt => c) (fun c => Some c) (fun c => eq_refl) (tick_of []) tick_ok
+                  (fun c : cpt => c) (fun c => Some c) (fun c => eq_refl) (tick_of mods) (tick_ok mods) (mods_of mods) (mods_ok mods)
                   n e cos e' cos' co He Hd Hcos) as Hres.
     destruct Hres as [Hi|(Hdone & Hpe & Lnew & Htr & Hpt)].
     - left. exact Hi.
@@ -398,23 +433,22 @@ Qed.
    nesting levels (node, input) are, as a multiset, those of the reference run: nothing completed before an
    interrupt — inside a nested graph or not — is executed again, nothing is lost. *)
 Lemma nested_equiv_pregel_l : forall F, Forall pregel_graph F ->
-  forall x eU0 coU eU' vU e cos e' cos' co,
-    EOKe eU0 -> EOKe e ->
+  forall mods x eU0 coU eU' vU e cos e' cos' co,
     run_drive (map strip F) false [] x eU0 = ([coU], eU') -> co_out coU = ODone vU ->
-    run_drive F true [] x e = (cos, e') -> cos = cos' ++ [co] ->
+    run_drive F true mods x e = (cos, e') -> cos = cos' ++ [co] ->
     is_interrupt (co_out co) \/
     (co_out co = ODone vU /\
      Permutation (good (all_logs cos)) (co_log coU) /\
      exists LU LI, trE eU' = trE eU0 ++ LU /\ trE e' = trE e ++ LI /\ Permutation LI LU).
 Proof.
-  intros F HF x eU0 coU eU' vU e cos e' cos' co HeU He Href HvU Hd Hcos.
+  intros F HF mods x eU0 coU eU' vU e cos e' cos' co Href HvU Hd Hcos.
   destruct F as [|g0 rest].
   { simpl in Href. inversion Href. }
   assert (HF' : Forall (good_graph pregelJ) (g0 :: rest)).
   { eapply Forall_impl; [|exact HF]. intros g Hg. apply pregel_good. exact Hg. }
   unfold run_drive in Hd.
-  exact (nested_equiv_l (g0 :: rest) pregelJ HF' g0 rest eq_refl x eU0 coU eU' vU max_resumes e cos e' cos' co
-           HeU He Href HvU Hd Hcos).
+  exact (nested_equiv_l (g0 :: rest) pregelJ HF' g0 rest eq_refl mods x eU0 coU eU' vU max_resumes e cos e' cos' co
+           Href HvU Hd Hcos).
 Qed.
 
 (* ---------- non-vacuity: START -> 2 (nested graph) -> 3 -> END; the nested graph START -> 4 -> 5 -> END has
@@ -454,4 +488,15 @@ Lemma wn_interrupted : exists co1 co2 co3 e i1 c1 v,
 Proof.
   do 7 eexists. split; [vm_compute; reflexivity|]. split; [reflexivity|]. split; [reflexivity|].
   split; [do 2 eexists; split; reflexivity|]. split; vm_compute; reflexivity.
+Qed.
+
+(* the same run, every call carrying the state modifier: the modifier bumps the counter of the top-level state
+   and of the state of the resumed nested graph; the run still takes three calls and completes alike *)
+Lemma wn_interrupted_mod : exists co1 co2 co3 e v st,
+  run_drive wn_F true [true] wn_x (env0 []) = ([co1; co2; co3], e) /\
+  (exists i2 c2, co_out co2 = OInterrupted i2 c2 /\ ii_gs i2 = Some st /\ st_mods st = 1) /\
+  co_out co3 = ODone v /\ List.length (trE e) = 3%nat.
+Proof.
+  do 6 eexists. split; [vm_compute; reflexivity|]. split; [do 2 eexists; split; [reflexivity|split; reflexivity]|].
+  split; vm_compute; reflexivity.
 Qed.
